@@ -239,7 +239,36 @@ class QOuter(QL):
         self.a, self.b = a, b
 
 
-def product_rule(chk, src, rule):
+class QTot(Sym):
+    """total charge: a linear combination of the operands' total charges"""
+    def __init__(self, terms):
+        super().__init__(" + ".join(f"{c}*{n}" if c != 1 else n for n, c in sorted(terms.items())) or "0")
+        self.terms = dict(terms)
+
+    def _comb(self, o, sign=1):
+        if not isinstance(o, QTot):
+            raise AnalysisError(f"total charge combined with {o!r}")
+        t = dict(self.terms)
+        for n, c in o.terms.items():
+            t[n] = t.get(n, 0) + sign * c
+        return QTot({n: c for n, c in t.items() if c})
+
+    def __add__(self, o):
+        return self._comb(o)
+
+    __radd__ = __add__
+
+    def __sub__(self, o):
+        return self._comb(o, -1)
+
+    def __neg__(self):
+        return QTot({n: -c for n, c in self.terms.items()})
+
+    def copy(self):
+        return QTot(self.terms)
+
+
+def product_rule(chk, src, rule, rule_align=None, rule_charge=None):
     """abstract run of Mpo.apply (state operand, operator operand) and MpDm.apply on symbolic 3-site chains whose bond and physical sizes are distinct primes: every site of
     the product is the operator site contracted over its column index with the operand's row index; the two left bonds and the two right bonds are merged in one order, which is
     also the order of the add_outer that builds the labels of the merged bonds; open physical legs are (operator row[, operand column])"""
@@ -266,10 +295,19 @@ def product_rule(chk, src, rule):
             c.sites = list(sites)
             c.qn = list(labels)
             c.is_mps, c.is_mpdm, c.is_complex = kind == "state", False, False
-            c.qntot = QL(f"qntot({name})", 1, 2)
-            c.dummy_qn = list(labels)
+            c.qntot = QTot({f"qntot({name.replace('copy(', '').rstrip(')')})": 1})
+            base = name.replace("copy(", "").rstrip(")")
+            c.dummy_qn = [QL(f"zero{base}{k}") for k in range(n + 1)]
+            for q in c.dummy_qn:
+                q.__dict__["_zero"] = True
+            for q in labels:
+                q.__dict__["_owner"] = c
             c._name = name
-            c.__dict__.update(move_qnidx=lambda k, c=c: moves.append((c._name, k)), canonicalise=lambda *a, **k: c, to_complex=lambda *a, **k: c, check_left_canonical=lambda *a: True)
+
+            def move(k, c=c):
+                moves.append((c._name, k))
+                c.qnidx = k
+            c.__dict__.update(move_qnidx=move, canonicalise=lambda *a, **k: c, to_complex=lambda *a, **k: c, check_left_canonical=lambda *a: True)
 
             def copy(c=c, name=name):
                 d = mk(f"copy({name})", c.sites, [q.copy() for q in c.qn], c._cls, kind)
@@ -282,7 +320,12 @@ def product_rule(chk, src, rule):
         A.qnidx, B.qnidx = "centre of A", "centre of B"
         A.__dict__["promote_mt_type"] = lambda mp: mp
         npx = NTm.np_namespace()
-        it = SymInterp(src, resolve, {"np": npx, "xp": npx, "tensordot": NTm.tensordot, "moveaxis": NTm.moveaxis, "add_outer": lambda a, b: QOuter(a, b), "logger": Blob("logger")})
+        combos = []
+
+        def add_outer(a, b):
+            combos.append(tuple((q, None if getattr(q, "_zero", False) else getattr(getattr(q, "_owner", None), "qnidx", "?")) for q in (a, b)))
+            return QOuter(a, b)
+        it = SymInterp(src, resolve, {"np": npx, "xp": npx, "tensordot": NTm.tensordot, "moveaxis": NTm.moveaxis, "add_outer": add_outer, "logger": Blob("logger")})
         it.max_depth = 12
         problems = []
         try:
@@ -328,8 +371,30 @@ def product_rule(chk, src, rule):
                     idx_ok = all(q.a._name.endswith(str(k)) and q.b._name.endswith(str(k)) for k, q in enumerate(out.qn))
                     if any(lo_ != (order or lo_) for lo_ in lorder) or not idx_ok:
                         problems.append(f"labels are built as {[repr(q) for q in out.qn[:2]]}..: tensor bonds are merged in the order {order}, labels in the order {lorder[0]}")
-                if qual == "Mpo.apply" and moves != [("copy(B)", "centre of A"), ("copy(B)", "centre of B")]:
-                    problems.append(f"label centre moves {moves}; expected: the operand's copy is moved to the operator's centre before the labels are combined and back to its own centre afterwards")
+                # ---- centre alignment: every combination of two centre-dependent label arrays happens while their owners sit at one centre; the product ends at the centre its
+                #      labels were read at or is moved back to the operand's centre; all-zero labels (dummy_qn) are the same at every centre
+                misaligned = [(a._name, ca, b._name, cb) for (a, ca), (b, cb) in combos if ca is not None and cb is not None and ca != cb]
+                real_b = any(not getattr(q, "_zero", False) and "B" in q._name for pair in combos for q, _ in pair)
+                if rule_align:
+                    al_ok = not misaligned and combos and (not real_b or out.qnidx in ("centre of B", "centre of A"))
+                    chk.ob(rule_align, f"{qual}[{okind} operand]: outer-sum", bool(al_ok), fi.where,
+                           {"combined at different centres": misaligned[:2], "centre moves": moves, "centre of the product": out.qnidx},
+                           "both label lists read at one centre (or one of them centre-invariant)", line=fi.node.lineno,
+                           detail=f"{qual} combines bond quantum numbers of two objects taken at different centres ({misaligned[:1]}): "
+                                  f"the result's labels are wrong when the operands' centres differ, and the damage shows after a later canonicalise()")
+                elif misaligned:
+                    problems.append(f"labels combined at different centres: {misaligned[:2]} (centre moves {moves})")
+                if qual == "Mpo.apply" and not misaligned and out.qnidx != "centre of B":
+                    problems.append(f"label centre moves {moves}: the product is left at {out.qnidx}; expected: moved back to the operand's own centre after the labels are combined")
+                # ---- total charge: the sum of the total charges of the operands whose (non-zero) labels entered the outer sums
+                want_tot = {"qntot(A)": 1, **({"qntot(B)": 1} if real_b else {})}
+                got_tot = getattr(out.qntot, "terms", None)
+                if rule_charge:
+                    chk.ob(rule_charge, f"{qual}[{okind} operand]: outer-sum", got_tot == want_tot, fi.where, {"total charge of the product": repr(out.qntot)},
+                           {"total charge of the product": " + ".join(sorted(want_tot))}, line=fi.node.lineno,
+                           detail=f"{qual}: bond labels and total charge are transformed differently (labels: outer sums of the operands' labels; total charge: {out.qntot!r})")
+                elif got_tot != want_tot:
+                    problems.append(f"total charge of the product {out.qntot!r}; expected {' + '.join(sorted(want_tot))}")
         chk.ob(rule, f"{qual}[{okind} operand]", not problems, fi.where, problems[:3] or {"merge order": order}, "operator column x operand row; bonds and labels merged in one order", line=fi.node.lineno,
                detail=f"{qual}: " + (problems[0] if problems else "") + " - tensor index a*dim_b + b must carry the label qn_a[a] + qn_b[b]; a different order attaches the labels to the wrong rows of the merged bond")
 
